@@ -8,6 +8,10 @@ from checks import views
 KINDS = ["assign_array", "assign_rotview", "assign_padview", "assign_constview", "assign_other", "assign_range", "assign_il", "fill",
          "std_fill_elements", "elements_assign", "swap", "assign_moved_view", "assign_rvalue_rotview", "assign_innerT",
          "assign_rvalue_innerT", "swap_same_layout"]
+# kinds re-run with an element type whose moves are observable (a moved-from element reads -2): a view is a reference-like
+# handle, so assigning from an rvalue VIEW must still copy and leave the source elements as they were
+TRK_KINDS = ["assign_array", "assign_rotview", "assign_constview", "elements_assign", "assign_rvalue_rotview", "assign_innerT",
+             "assign_rvalue_innerT", "swap", "swap_same_layout"]
 OPS = [o for o in views.ALL_OPS if o != "broadcast"]
 
 
@@ -32,10 +36,10 @@ def run(tier):
         if not ok:
             raise vlib.Broken("replay_assign.cpp does not compile:\n" + text[-3000:])
     plan = [("c05_d3", consts(3, 2, 2, KINDS), exe), ("c05_d2", consts(2, 3, 2, KINDS), exe),
-            ("c05_move_from", consts(3, 2, 1, ["move_from"]), exe_trk)]
+            ("c05_move_from", consts(3, 2, 1, ["move_from"]), exe_trk), ("c05_trk", consts(3, 2, 1, TRK_KINDS), exe_trk)]
     if tier == "thorough":
         plan += [("c05_d3_e3", consts(3, 3, 2, KINDS), exe), ("c05_d4", consts(4, 2, 2, KINDS), exe),
-                 ("c05_move_from2", consts(3, 2, 2, ["move_from"]), exe_trk)]
+                 ("c05_move_from2", consts(3, 2, 2, ["move_from"]), exe_trk), ("c05_trk2", consts(3, 2, 2, TRK_KINDS), exe_trk)]
     nontrivial = set()
     per_kind = rep.cov.setdefault("per_kind", {})
     for name, c, ex in plan:
